@@ -246,6 +246,7 @@ def main():
         np.random.seed(0)
         ans = {'id': t['id']}
         t0 = time.time()
+        c0 = time.process_time()
         try:
             a = mk(t['graph'])
             r = ALGOS[t['algo']](a, t.get('extra') or {})
@@ -262,6 +263,7 @@ def main():
             ans['exc'] = type(e).__name__
             ans['msg'] = str(e)[:200]
         ans['wall'] = round(time.time() - t0, 3)
+        ans['cpu'] = round(time.process_time() - c0, 3)
         text = ' '.join(UNRAISABLE) + ' ' + ans.get('msg', '')
         ans['oob'] = ('Out of bounds on buffer access' in text) or ('out of bounds' in ' '.join(UNRAISABLE).lower())
         if UNRAISABLE:
